@@ -479,6 +479,33 @@ def reentrant_sample(ctx, n):
                 pass
 
 
+def rewire_scenarios(thorough):
+    """source -> A -> consumer with an awaitable: two elements, then A is detached from the source while it holds / delivers them,
+    0-3 completions or ticks happen while it is detached, A is re-attached and two more elements follow."""
+    from .. import asynccheck as ac
+    import random
+    out = []
+    for kind in ASYNC_KINDS:
+        for k in range(0, 4):
+            for pre in ((1, 2), (2, 2)) if thorough else ((2, 2),):
+                nd = ac.gen_async_node(random.Random(17 * k + len(kind)), [kind])
+                nd.pop("callfail", None)
+                nd["ups"] = [0]
+                nodes = [{"kind": "source", "ups": []}, nd, {"kind": "sink", "mode": "async", "ups": [1]}]
+
+                def em(v):
+                    return {"op": "emit", "node": 0, "val": v, "md": [{"tag": v, "ref": v}]}
+                script = [em(v) for v in range(1, pre[0] + 1)] + [{"op": "complete-any"}] * (pre[1] - 1)
+                script += [{"op": "disconnect", "up": 0, "down": 1}] + [{"op": "complete-any"}] * k
+                script += [{"op": "connect", "up": 0, "down": 1}, em(8), em(9)]
+                out.append((nodes, script))
+    return out
+
+
+ASYNC_KINDS = ["buffer", "delay", "rate_limit", "map_async", "timed_window", "partition_timeout"]
+ASYNC_SIGS = ("delivery-lost", "delivery-duplicated", "delivery-reordered-or-altered")
+
+
 def run(ctx):
     ctx.audit()
     reentrant_sample(ctx, 40 if not ctx.thorough() else 800)
@@ -503,6 +530,16 @@ def run(ctx):
         if len(batch) >= 500:
             flush()
     flush()
+    # (B) asynchronous nodes are rewired too: a buffer / delay / rate_limit / map_async / timed_window / partition(timeout) node is
+    # detached from its producer and re-attached while it holds data, sleeps or waits for a consumer; what the sinks receive at
+    # quiescence must be what the same edits and emissions deliver with the timing removed
+    from . import _async_common as A
+    A.sweep(ctx, 60 if not ctx.thorough() else 1500, ASYNC_KINDS, ["lossless"], ASYNC_SIGS, allow_zip=False, opts={"p_rewire": 0.22})
+    from .. import asynccheck as ac
+    for i, (nodes, script) in enumerate(rewire_scenarios(ctx.thorough())):
+        case, obs = ac.run_adaptive(nodes, ctx.rng, len(script), opts={"script": script}, flavour=("future", "coro", "tornado")[i % 3])
+        ac.evaluate(ctx, case, obs, ["lossless"], ASYNC_SIGS)
+        ctx.count("directed:async-node-rewired")
     ctx.coverage["rule"] = ("corpus + random histories of 5-12 operations (emit 50%, connect, disconnect (7% on an absent edge), destroy, drop+gc) over "
                             "graphs of 3-8 nodes with zip / combine_latest / union joins; connect never creates a parallel edge or a cycle; links and "
                             "liveness are read after every operation. Non-trivial: >= 1 edit and >= 6 flow events.")
@@ -517,5 +554,9 @@ def replay(ctx, data):
         reentrant_sample(ctx, 40)
         ctx.coverage["rule"] = "replay: re-entrant edit sample"
         return
-    evaluate(ctx, case, rerun(case), common.lean_driver("Graph", graphcheck.model_lines(case)))
+    if case.get("mode") == "async" and any(n["kind"] in ASYNC_KINDS for n in case["nodes"]):
+        from .. import asynccheck as ac
+        ac.evaluate(ctx, case, ac.rerun(case), ["lossless"], ASYNC_SIGS)
+    else:
+        evaluate(ctx, case, rerun(case), common.lean_driver("Graph", graphcheck.model_lines(case)))
     ctx.coverage["rule"] = "replay of one recorded case"
